@@ -96,6 +96,14 @@ func (f *SQLFormatter) formatStatement(stmt ast.Statement) error {
 	case *ast.MergeStatement:
 		return f.formatMergeStatement(s)
 	default:
+		// Statement types without a dedicated printer (TRUNCATE, SHOW, DESCRIBE, ...)
+		// are written with the AST's own serialiser instead of failing the whole file
+		if s, ok := stmt.(interface{ SQL() string }); ok {
+			if text := s.SQL(); text != "" {
+				f.builder.WriteString(text)
+				return nil
+			}
+		}
 		return fmt.Errorf("unsupported statement type: %T", stmt)
 	}
 }
